@@ -96,11 +96,52 @@ def ensure_config_h():
     return os.path.join(alt, "src")
 
 
+def makefile_vars():
+    """variables of src/Makefile.am of the tree under check (continuation lines joined); the library's own
+    compile flags and source lists are READ from it on every run, so that a change of the build defaults
+    (an added -D, a different wrap flavour, a new source file) reaches the checks"""
+    try:
+        txt = open(os.path.join(REPO, "src", "Makefile.am"), errors="replace").read()
+    except OSError:
+        return {}
+    txt = txt.replace("\\\n", " ")
+    vs = {}
+    for m in re.finditer(r"^([A-Za-z_][A-Za-z0-9_]*)\s*(\+?=)\s*(.*)$", txt, re.M):
+        k, op, v = m.group(1), m.group(2), m.group(3).strip()
+        vs[k] = (vs.get(k, "") + " " + v).strip() if op == "+=" else v
+    return vs
+
+
+def _expand(vs, val, depth=0):
+    if depth > 5:
+        return val
+    return re.sub(r"\$\((\w+)\)", lambda m: _expand(vs, vs.get(m.group(1), ""), depth + 1), val)
+
+
 def lib_cflags(wrap="VANILLA"):
     cfgdir = ensure_config_h()
-    return ["-Wno-error", "-w", "-DHAVE_CONFIG_H", "-I" + cfgdir, "-I" + os.path.join(REPO, "src"),
-            "-D_GNU_SOURCE", "-D_XOPEN_SOURCE", "-D_DARWIN_C_SOURCE",
-            "-I" + os.path.join(REPO, "include"), "-DMYTH_WRAP=MYTH_WRAP_" + wrap, "-DMYTH_VERIF"]
+    flags = ["-Wno-error", "-w", "-DHAVE_CONFIG_H", "-I" + cfgdir, "-I" + os.path.join(REPO, "src"),
+             "-I" + os.path.join(REPO, "include")]
+    vs = makefile_vars()
+    var = {"VANILLA": "libmyth_la_CFLAGS", "LD": "libmyth_ld_la_CFLAGS", "DL": "libmyth_dl_la_CFLAGS"}.get(wrap)
+    got = []
+    if var and var in vs:
+        for tok in _expand(vs, vs[var]).split():
+            if tok.startswith(("-D", "-U", "-f", "-m", "-O", "-std")):
+                got.append(tok)
+    if not any(t.startswith("-DMYTH_WRAP=") for t in got):
+        got = ["-D_GNU_SOURCE", "-D_XOPEN_SOURCE", "-D_DARWIN_C_SOURCE", "-DMYTH_WRAP=MYTH_WRAP_" + wrap]
+    return flags + got + ["-DMYTH_VERIF"]
+
+
+def lib_sources(wrap="VANILLA"):
+    """the library's translation units as listed in src/Makefile.am (fallback: the pinned list)"""
+    vs = makefile_vars()
+    common = [t for t in _expand(vs, vs.get("COMMON_SRCS", "")).split() if t.endswith(".c")]
+    wraps = [t for t in _expand(vs, vs.get("WRAP_SRCS", "")).split() if t.endswith(".c")]
+    if not common:
+        common, wraps = list(COMMON_SRCS), list(WRAP_SRCS)
+    return common + (wraps if wrap != "VANILLA" else [])
 
 
 def repo_src_hash(subdir="src", exts=(".c", ".h", ".cc", ".opts")):
@@ -125,7 +166,7 @@ def build_lib(extra=(), wrap="VANILLA", opt="-O0", srcs=None):
     """Compile the library translation units of the current tree with -DMYTH_VERIF into a
     content-addressed directory; returns the path of the archive.  Raises on compile errors."""
     flags = lib_cflags(wrap) + [opt, "-g", "-fPIC"] + list(extra)
-    srcs = srcs or (COMMON_SRCS + (WRAP_SRCS if wrap != "VANILLA" else []))
+    srcs = srcs or lib_sources(wrap)
     key = sha(repo_src_hash("src"), repo_src_hash("include"), " ".join(flags), " ".join(srcs))[:16]
     d = os.path.join(BUILD, "lib", key)
     ar = os.path.join(d, "libmyth.a")
